@@ -11,6 +11,7 @@ CfgSmallB == [K |-> 2, maxin |-> 2, bl |-> 0, tl |-> 0, pt |-> 0, bits |-> 3]
 CfgIp     == [K |-> 2, maxin |-> 2, bl |-> 2, tl |-> 2, pt |-> 1, bits |-> 3]
 CfgMid    == [K |-> 3, maxin |-> 2, bl |-> 0, tl |-> 0, pt |-> 1, bits |-> 3]
 CfgReal   == [K |-> 16, maxin |-> 3, bl |-> 0, tl |-> 0, pt |-> 2, bits |-> 6]
+CfgRealIp2 == [K |-> 16, maxin |-> 16, bl |-> 2, tl |-> 10, pt |-> 1, bits |-> 6]
 CfgRealIp == [K |-> 16, maxin |-> 16, bl |-> 2, tl |-> 10, pt |-> 1, bits |-> 7]
 
 States == STATES   Dirs == DIRS
@@ -48,8 +49,11 @@ TwoEach(b) == IF b < 1 THEN <<>> ELSE
    LET ks == SetToSeq(KeysIn(b)) IN TwoEach(b - 1) \o [i \in 1..(IF Len(ks) < 2 THEN Len(ks) ELSE 2) |-> Iou(ks[i], "s1", "C", "O")]
 IpOps == LET ks == SetToSeq(KeysIn(Top)) IN
    FillOps(2, CFG.K, "n") \o <<Iou(ks[CFG.K + 1], "s1", "C", "O")>> \o TwoEach(Top - 1)
-Init == \E pat \in (IF PREFILL = 0 THEN {0} ELSE IF PREFILL = 99 THEN {99} ELSE {0, 1, 3, PREFILL}) :
-          /\ script = (IF PREFILL = 0 THEN <<>> ELSE IF PREFILL = 99 THEN IpOps ELSE FillOps(pat, PREFILL, "n"))
+\* scenario "pend": full top bucket (2 disconnected first, the third node already in s1) and an s1 candidate pending
+PendOps == LET ks == SetToSeq(KeysIn(Top))  f == FillOps(2, CFG.K, "n") IN
+   [i \in 1..Len(f) |-> IF i = 3 THEN [f[i] EXCEPT !.sub = "s1"] ELSE f[i]] \o <<Iou(ks[CFG.K + 1], "s1", "C", "O")>>
+Init == \E pat \in (IF PREFILL = 0 THEN {0} ELSE IF PREFILL >= 98 THEN {PREFILL} ELSE {0, 1, 3, PREFILL}) :
+          /\ script = (IF PREFILL = 0 THEN <<>> ELSE IF PREFILL = 99 THEN IpOps ELSE IF PREFILL = 98 THEN PendOps ELSE FillOps(pat, PREFILL, "n"))
           /\ tb = EmptyTable(CFG) /\ stamp = <<>>
           /\ lastop = Reset /\ lastret = "ok" /\ hist = <<Reset>> /\ res = [tb |-> <<>>, ret |-> "ok"]
 \* (primed variables are bound in sequence so that Step is evaluated once per successor: TLC
@@ -91,5 +95,9 @@ GoalPendingDropped  == ~(lastop.o = "uns" /\ lastop.st = "C" /\ lastret = "Updat
 GoalTooManyIncoming == ~(lastret = "Failed(TooManyIncoming)" /\ lastop.o = "uns")
 GoalTableFilter     == ~(lastret = "Failed(TableFilter)" /\ lastop.o = "un")
 GoalBucketFilter    == ~(lastret = "Failed(BucketFilter)")
+\* the bucket filter decides at promotion time: the candidate is dropped because its subnet filled up while it waited
+GoalApplyFilterDrop == ~(\E b \in Buckets(CFG) : script = <<>> /\ lastop.o = "iter" /\ FullB(b) /\ ~tb[b].pend.on
+                           /\ SubCount(BVals(tb[b]), "s1") = CFG.bl /\ tb[b].nodes[1].val.sub = "n" /\ Len(hist) > CFG.K + 4
+                           /\ \A i \in 1..Len(tb[b].nodes) : tb[b].nodes[i].key # SetToSeq(KeysIn(Top))[CFG.K + 1])
 GoalBucket0Closest  == ~(lastop.o = "closest" /\ lastop.t % 2 = 1 /\ Len(tb[0].nodes) = 1 /\ Len(lastret) >= 3)
 =============================================================================
